@@ -11,6 +11,27 @@ Require Import Verif.Model.Base Verif.Model.EntryPoint Verif.Model.Caller.
 Require Import Verif.Gen.EntryPoints Verif.Gen.CallerSites.
 Require Import Verif.Proofs.CallerP.
 
+(* tie for the std-log bridge: NewLogLogger and handlerWriter.Write translated from the source (Gen/Bridge.v), one
+   after the other.  A bridge as NewLogLogger builds it, when written to: the record carries the program counter
+   getpc(4, skip count of the logger) - 4 = [runtime.Callers, getpc, Write, log.Logger.output, log.Print*] - for EVERY
+   flags word, level, gate answer and skip count at construction time (the caller information is captured even if
+   Lcaller is switched on later; the skip count is the one the logger has when it is written to) *)
+Require Verif.Model.GoSem Verif.Model.BridgeRef Verif.Gen.Bridge Verif.Proofs.GenBridgeP.
+Theorem C14_gen_bridge_pc : forall f_level enabled_then skip_then flags deflevel h lvl f_enabled f_skip f_getpc as_aware w_n w_e buf tr,
+  match Bridge.new_log_logger f_level enabled_then skip_then flags deflevel h lvl with
+  | BridgeRef.mk_bridge (l, v, cap, extra) _ _ =>
+      Bridge.bridge_write f_enabled f_skip f_getpc as_aware w_n w_e l v cap extra buf tr =
+      if f_enabled h lvl
+      then match as_aware h with
+           | Some hh => (w_n, w_e, tr ++ [BridgeRef.BWInternal hh lvl (f_getpc 4 (0 + f_skip h)) buf])
+           | None => (0, None, tr)
+           end
+      else (0, None, tr)
+  | BridgeRef.BridgeNone => False
+  end.
+Proof. exact GenBridgeP.bridge_end_to_end. Qed.
+Print Assumptions C14_gen_bridge_pc.
+
 (* tie: the argument getpc hands to runtime.Callers and the one of Handle, as
    translated from the source, are the functions the model uses *)
 Theorem C14_gen_callers_arg :
